@@ -14,11 +14,15 @@ NewTrace == starts' <= starts /\ proc' = "run" /\ proc # "run"
 Restored(f) ==
   \/ cf.hasMode[f] /\ orig[f].mode # Manual /\ mode[f] = orig[f].mode
   \/ pwm[f] = Full
+\* "taken over": the controller has captured the fan's original state (any phase after "Off");
+\* from then on every way out must hand the fan back - also when the termination signal arrives
+\* during the start-up wait, the analysis or the first-second delay
+Taken(f) == ph[f] # "Off"
 C03_HandBackOrFull ==
-  \A f \in cf.fans : reg[f] /\ ph[f] = "Done" => Restored(f)
-\* the process never ends with a regulated fan that was not handed back
+  \A f \in cf.fans : ph[f] = "Done" => Restored(f)
+\* the process never ends with a fan that was taken over and not handed back
 C03_AtExit ==
-  proc \in {"exited", "crashed"} => \A f \in cf.fans : reg[f] => ph[f] = "Done" /\ Restored(f)
+  proc \in {"exited", "crashed"} => \A f \in cf.fans : Taken(f) => ph[f] = "Done" /\ Restored(f)
 \* a fan that is being regulated is only ever left through the restore sequence
 C03_OnlyThroughRestore ==
   [][NewTrace \/ (\A f \in cf.fans : ph[f] = "Reg" /\ ph'[f] # "Reg" => ph'[f] = "Rest1" \/ proc' # "run" \/ proc # "run")]_dvars
